@@ -231,17 +231,17 @@ impl RequestHandler for Handler {
 }
 
 /// a handler that only has the trait's default method bodies
-struct DefaultAuth;
+pub struct DefaultAuth;
 impl AuthorizationHandler for DefaultAuth {}
 
-enum Policy {
+pub enum Policy {
     Inner(Arc<dyn AuthorizationHandler>),
     Hash(u64, u64),
 }
 
-struct LoggedAuth {
-    policy: Policy,
-    log: Log,
+pub struct LoggedAuth {
+    pub policy: Policy,
+    pub log: Log,
 }
 
 impl LoggedAuth {
